@@ -63,6 +63,38 @@ def strategy(tier):
     return _case()
 
 
+ALPHA = ["start", "stop", "find-mc-wild", "find-uc-exact", "find-mc-exact", "find-uc-miss", "T-q", "T+q", "+0.02", "+0.5"]
+ENUM_LEN = {"quick": 4, "thorough": 5}
+ENUM_TM = [dict(imin=0.1, imax=0.1, reps=2, base=0.05, cyc=1, ttl=3, coll=0.005, rmin=0.02, rmax=0.3),
+           dict(imin=0, imax=0, reps=1, base=0.05, cyc=0, ttl=INF, coll=0, rmin=0.003, rmax=0.02)]
+EXHAUSTIVE = {"quick": "all 10^4 scripts of length 4 over {start, stop, multicast wildcard Find, unicast exact Find, multicast exact Find, unicast near-miss Find} x timing prefixes {next timer -RES/4, +RES/4, +0.02 s, +0.5 s}, for a cyclic configuration with collection timeout and a non-cyclic one without, three instances",
+              "thorough": "all 10^5 scripts of length 5 over the same alphabet and configurations"}
+
+
+def enum_size(tier):
+    return len(ENUM_TM) * len(ALPHA) ** ENUM_LEN[tier]
+
+
+def enum_case(tier, idx):
+    idx, ci = divmod(idx, len(ENUM_TM))
+    steps = [{"op": "start", "when": ["d", 0.01]}]
+    when = ["d", 0.05]
+    finds = {"find-mc-wild": (True, [0x4000, 0xFFFF, 0xFF, 0xFFFFFFFF]), "find-uc-exact": (False, list(INST[0])),
+             "find-mc-exact": (True, list(INST[1])), "find-uc-miss": (False, [0x4000, 0x0101, 1, 0x10008])}
+    for _ in range(ENUM_LEN[tier]):
+        idx, r = divmod(idx, len(ALPHA))
+        a = ALPHA[r]
+        if a in ("T-q", "T+q", "+0.02", "+0.5"):
+            when = {"T-q": ["t", 0, "-q"], "T+q": ["t", 0, "+q"], "+0.02": ["d", 0.02], "+0.5": ["d", 0.5]}[a]
+            continue
+        if a in finds:
+            steps.append({"op": "find", "mc": finds[a][0], "src": len(steps) % 2, "f": finds[a][1], "when": when})
+        else:
+            steps.append({"op": a, "when": when})
+        when = ["d", 0.05]
+    return {"tm": ENUM_TM[ci], "n": 3, "fr": [0.5, 0.0, 1.0], "steps": steps}
+
+
 def fixed_cases(tier):
     out = []
     base = dict(imin=0.1, imax=0.1, reps=2, base=0.05, cyc=1, ttl=3, coll=0, rmin=0.02, rmax=0.3)
